@@ -317,6 +317,10 @@ def _cases(tier, seed):
                 continue
             out.append({"k": "unary", "s": list(shape), "v": var})
             out.append({"k": "index", "s": list(shape), "v": var})
+    for shape in [(3,), (6,), (2, 3), (3, 3), (2, 1, 3)]:
+        for var in ("canon", "rev"):
+            out.append({"k": "unary", "s": list(shape), "v": var, "family": "noconst"})
+            out.append({"k": "index", "s": list(shape), "v": var, "family": "noconst"})
     # many elements along an axis (blocked / chunked code paths leave remainders there)
     for shape in [(67,), (2, 65), (66, 1)]:
         out.append({"k": "unary", "s": list(shape), "v": "canon"})
@@ -340,6 +344,11 @@ def run_case(case, R):
         shape = tuple(case["s"])
         var = case["v"]
         sp = tagged(shape, variant=var)
+        if case.get("family") == "noconst":
+            # float coefficients, no constant-term row at all, several identically-zero elements (selections that are
+            # identically zero have no term to take the dtype from)
+            n_ = int(numpy.prod(shape)) if shape else 1
+            sp = spec(("q0", "q1"), shape, [((1, 0), [0.5 * (i % 3 == 0) * (i + 1) for i in range(n_)]), ((0, 2), [-1.5 * (i % 3 == 1) for i in range(n_)])], "f8", var)
         p = build_checked(sp)
         m = model_of(sp)
         names, dtype = p.names, p.dtype
@@ -413,7 +422,10 @@ def operand_sets(shape):
     b = tagged(shape, 100, ("q1", "q2"))
     c = spec(("q2", "q10"), shape, [((1, 1), 7)], "i8")
     d = tagged(shape, 50, ("q0", "q1"), variant="T" if len(shape) >= 2 else "canon")
-    return [[a, d], [a, b], [a, b, c]]
+    # the same names and the same set of monomials as `a`, but the terms STORED in another order (as monomial / symbols / direct
+    # construction leave them)
+    u = tagged(shape, 70, ("q0", "q1"), variant="unsorted+T" if len(shape) >= 2 else "unsorted")
+    return [[a, d], [a, b], [a, u], [u, a], [a, b, c]]
 
 
 def run_multi(case, R):
